@@ -13,6 +13,7 @@ EXPLANATION = ("Order/dominance and provenance facts over the MIR of the three p
                "the Blake3 digest is the hash's property and is assumed."
                " (R5) an error met while locating, opening or parsing a pack is never turned into 'absent' (= C06-R7): the container-wide check cannot skip an altered pack."
                ' Added later: (R6) FileSource positions every read with an absolute seek (the read buffer is discarded, a re-check re-reads the file); (R1) before the hash, rewind() is the origin only for a creator that recorded none. (R5) also the match form: an Err arm that goes on to a normal return.')
+EXPLANATION += ' Batch 12: (R7) the reader masks 1 + count() pack-info slots as soon as a first offset exists (counted, not computed from distances).'
 ASSUMPTIONS = ["Blake3 collision resistance", "CheckKind::None (container packs) verifies by design",
                "std::io Seek/Read/Write semantics", "rustc MIR construction and trait resolution"]
 
@@ -535,7 +536,35 @@ def r6_checked_reads_come_from_the_file(cx):
               "every read of the shared BufReader (%d) comes after seek(SeekFrom::Start(..)), which discards what an earlier read buffered (seek_relative at lines %s; reads without an absolute seek before them: %s)" % (len(reads), relative, unpositioned))
 
 
+def r7_reader_masks_as_many_slots_as_there_are(cx):
+    """'every pack the creator produces passes its own check': the creator hashes the manifest with the rewritable part of
+    *each* pack info read as zero (R1: nb_packs = self.packs.len()); the reader must mask exactly as many slots. In
+    ManifestCheckStream::new_from_offset_iter, as soon as the iterator of pack-info offsets yields a first offset, the count
+    handed to `new` is 1 + `count()` of the rest -- counted, not computed from distances between offsets (`last`, `-`, `/`),
+    which forgets the case of a single pack."""
+    F = cx.F
+    f = F.one(impl_self="check::ManifestCheckStream", item="new_from_offset_iter", closure=False)
+    b = F.body(f)
+    nx = [(i, t) for i, t in b.calls(r"Iterator>::next$") if ("param", 2) in b.origins(t["args"][0])]
+    if len(nx) != 1:
+        raise AnchorLost("new_from_offset_iter: %d `next()` on the offsets" % len(nx))
+    r, _ = b.explore(assume_calls={nx[0][0]: ("agg", 1, (None,))}, avoid=b.panic_blocks())
+    news = [(i, t) for i, t in b.calls(r"ManifestCheckStream::<.*>::new$") if i in r]
+    if not news:
+        raise AnchorLost("new_from_offset_iter does not reach ManifestCheckStream::new when a first offset exists")
+    bad = []
+    for i, t in news:
+        o = b.origins(t["args"][2], blocks=set(r))
+        cs = {callee_str(b.term(x[1])).split("::<")[0].split("::")[-1] for x in o if x[0] == "call"}
+        counted = "count" in cs or "len" in cs
+        computed = sorted(cs & {"last", "sub", "div", "max", "min", "nth", "size_hint", "checked_sub", "checked_div"})
+        if not counted or computed:
+            bad.append("line %s: counted=%s, computed through %s" % (t.get("ln"), counted, computed or "nothing"))
+    cx.ob("R7", "R7/new_from_offset_iter/slots-are-counted", not bad, f, "with a first pack-info offset at hand, the number of masked slots is 1 + count() of the remaining offsets on every path (%s)" % (bad or "ok"))
+
+
 RULES = [
+    ("R7", r7_reader_masks_as_many_slots_as_there_are, 1),
     ("R6", r6_checked_reads_come_from_the_file, 3),
     ("R5", r_errors_reach_the_caller, 2),
     ("R1", r1_hash_after_writes, 18),
